@@ -1,89 +1,11 @@
-(* C07 — proofs about the binary32-over-R reading (ModelR.v).
-   Uses Reals, Flocq and the interval tactic (axioms reported by Print Assumptions). *)
+(* C07 — error-bound proofs about the binary32-over-R reading (ModelR.v) that use the interval
+   tactic: rcp / rsqrt accuracy, deg2rad.  Re-exports ProofsRBase. *)
 From Coq Require Import Reals ZArith Lia Lra Psatz.
 From Flocq Require Import Core Relative.
 From Interval Require Import Tactic.
 From C07 Require Import Model ModelR ProofsInt.
+From C07 Require Export ProofsRBase.
 Local Open Scope R_scope.
-
-Local Instance prec24 : Prec_gt_0 24.
-Proof. unfold Prec_gt_0. reflexivity. Qed.
-
-Notation u24 := (/ 2 * bpow radix2 (-24 + 1)).
-Notation eta32 := (/ 2 * bpow radix2 (-149)).
-
-(* ------------------------------------------------------------ rounding facts *)
-Lemma rnd_err x : exists eps eta,
-  Rabs eps <= u24 /\ Rabs eta <= eta32 /\ eps * eta = 0 /\ rnd x = x * (1 + eps) + eta.
-Proof.
-  destruct (error_N_FLT radix2 (-149) 24 ltac:(reflexivity) (fun z => negb (Z.even z)) x)
-    as (eps & eta & H1 & H2 & H3 & H4).
-  exists eps, eta. repeat split; assumption.
-Qed.
-
-Lemma rnd_format x : format32 (rnd x).
-Proof. apply generic_format_round; typeclasses eauto. Qed.
-
-Lemma rnd_id x : format32 x -> rnd x = x.
-Proof. intro H. apply round_generic; [typeclasses eauto | exact H]. Qed.
-
-Lemma rnd_mono x y : x <= y -> rnd x <= rnd y.
-Proof. intro H. apply round_le; [typeclasses eauto | typeclasses eauto | exact H]. Qed.
-
-Lemma fmt_F2R m e : (Z.abs m < 2 ^ 24)%Z -> (-149 <= e)%Z -> format32 (IZR m * bpow radix2 e).
-Proof.
-  intros Hm He. apply generic_format_FLT.
-  exists (Float radix2 m e); [reflexivity | exact Hm | exact He].
-Qed.
-
-Lemma fmt_0 : format32 0.
-Proof. apply generic_format_0. Qed.
-Lemma fmt_1 : format32 1.
-Proof. replace 1 with (IZR 1 * bpow radix2 0) by (simpl; ring). apply fmt_F2R; [reflexivity | lia]. Qed.
-Lemma fmt_2 : format32 2.
-Proof. replace 2 with (IZR 2 * bpow radix2 0) by (simpl; ring). apply fmt_F2R; [reflexivity | lia]. Qed.
-Lemma fmt_255 : format32 255.
-Proof. replace 255 with (IZR 255 * bpow radix2 0) by (simpl; ring). apply fmt_F2R; [reflexivity | lia]. Qed.
-Lemma fmt_bpow e : (-149 <= e)%Z -> format32 (bpow radix2 e).
-Proof. intro He. replace (bpow radix2 e) with (IZR 1 * bpow radix2 e) by ring. apply fmt_F2R; [reflexivity | exact He]. Qed.
-Lemma fmt_FLT_MIN : format32 FLT_MIN.
-Proof. apply fmt_bpow. lia. Qed.
-Lemma fmt_FLT_MAX : format32 FLT_MAX.
-Proof.
-  replace FLT_MAX with (IZR 16777215 * bpow radix2 104).
-  - apply fmt_F2R; [reflexivity | lia].
-  - unfold FLT_MAX. change 127%Z with (23 + 104)%Z. rewrite bpow_plus.
-    replace (2 - bpow radix2 (-23)) with (IZR 16777215 * bpow radix2 (-23)) by (simpl; lra).
-    replace (bpow radix2 23) with 8388608 by (simpl; lra).
-    replace (bpow radix2 (-23)) with (/ 8388608) by (simpl; lra). field.
-Qed.
-Definition Ubound : R := 1 + 3 / 8192.
-Lemma fmt_U : format32 Ubound.
-Proof.
-  replace Ubound with (IZR 8195 * bpow radix2 (-13)) by (unfold Ubound; simpl; lra).
-  apply fmt_F2R; [reflexivity | lia].
-Qed.
-
-Lemma rnd_0 : rnd 0 = 0.
-Proof. apply rnd_id, fmt_0. Qed.
-
-Lemma rnd_ge x y : format32 x -> x <= y -> x <= rnd y.
-Proof. intros F H. apply round_ge_generic; [typeclasses eauto | typeclasses eauto | exact F | exact H]. Qed.
-Lemma rnd_le x y : format32 y -> x <= y -> rnd x <= y.
-Proof. intros F H. apply round_le_generic; [typeclasses eauto | typeclasses eauto | exact F | exact H]. Qed.
-Lemma rnd_abs_le x y : format32 y -> Rabs x <= y -> Rabs (rnd x) <= y.
-Proof. intros F H. apply abs_round_le_generic; [typeclasses eauto | typeclasses eauto | exact F | exact H]. Qed.
-
-Lemma FLT_MIN_pos : 0 < FLT_MIN.
-Proof. apply bpow_gt_0. Qed.
-Lemma bpow_le_MAX e : (e <= 127)%Z -> bpow radix2 e <= FLT_MAX.
-Proof.
-  intro He. apply Rle_trans with (bpow radix2 127); [apply bpow_le; exact He |].
-  unfold FLT_MAX. pose proof (bpow_le radix2 (-23) 0 ltac:(lia)) as H. simpl (bpow radix2 0) in H.
-  pose proof (bpow_gt_0 radix2 127). nra.
-Qed.
-Lemma FLT_MIN_le_MAX : FLT_MIN <= FLT_MAX.
-Proof. apply bpow_le_MAX. lia. Qed.
 
 (* ------------------------------------------------------- polynomial bounds *)
 Lemma rcp_poly e d1 d2 d3 h1 h2 w :
@@ -109,30 +31,6 @@ Lemma rsqrt_nosimd_poly d1 d2 g1 g2 :
   Rabs ((1 + d2) / ((1 + d1) + g1) + g2 - 1) <= bpow radix2 (-20).
 Proof. intros. interval. Qed.
 
-(* |h * x| for an absolute error h and |x| <= 2^126 *)
-Lemma eta_scaled h x : Rabs h <= eta32 -> Rabs x <= bpow radix2 126 -> Rabs (h * x) <= bpow radix2 (-24).
-Proof.
-  intros Hh Hx. rewrite Rabs_mult.
-  replace (bpow radix2 (-24)) with (eta32 * bpow radix2 126).
-  - apply Rmult_le_compat; try apply Rabs_pos; assumption.
-  - change (/ 2) with (bpow radix2 (-1)). rewrite <- !bpow_plus. reflexivity.
-Qed.
-
-(* --------------------------------------------------------------------- rcp *)
-Lemma rcp_nosimd_accuracy x :
-  FLT_MIN <= Rabs x <= bpow radix2 126 -> Rabs (rcp_nosimd x * x - 1) <= bpow radix2 (-24).
-Proof.
-  intros [Hlo Hhi]. unfold rcp_nosimd, fdiv.
-  assert (Hx0 : x <> 0).
-  { intro E. rewrite E, Rabs_R0 in Hlo. pose proof FLT_MIN_pos. lra. }
-  destruct (rnd_err (1 / x)) as (d & h & Hd & Hh & Hz & E). rewrite E.
-  replace (((1 / x) * (1 + d) + h) * x - 1) with (d + h * x) by (field; exact Hx0).
-  destruct (Rmult_integral _ _ Hz) as [Z | Z]; subst.
-  - rewrite Rplus_0_l. apply eta_scaled; assumption.
-  - rewrite Rmult_0_l, Rplus_0_r. eapply Rle_trans; [exact Hd |].
-    right. change (/ 2) with (bpow radix2 (-1)). rewrite <- bpow_plus. reflexivity.
-Qed.
-
 Section Estimates.
   Variable rcp_est : R -> R.
   Variable rsqrt_est : R -> R.
@@ -141,8 +39,6 @@ Section Estimates.
      may be flushed to zero but is never of the wrong sign or too large *)
   Hypothesis H_rcp : forall x, format32 x -> FLT_MIN <= Rabs x < bpow radix2 126 ->
     Rabs (rcp_est x * x - 1) <= 3 / 8192.
-  Hypothesis H_rcp_big : forall x, format32 x -> bpow radix2 126 <= Rabs x ->
-    0 <= rcp_est x * x <= 1 + 3 / 8192.
   Hypothesis H_rsqrt : forall x, format32 x -> FLT_MIN <= x < bpow radix2 126 ->
     Rabs (rsqrt_est x * sqrt x - 1) <= 3 / 8192.
 
@@ -150,7 +46,7 @@ Section Estimates.
     format32 x -> FLT_MIN <= Rabs x < bpow radix2 126 ->
     Rabs (rcp_simd rcp_est x * x - 1) <= bpow radix2 (-20).
   Proof.
-    clear H_rcp_big H_rsqrt rsqrt_est.
+    clear H_rsqrt rsqrt_est.
     intros Fx Hx. pose proof (H_rcp x Fx Hx) as He. unfold rcp_simd, fmul, fsub.
     set (r := rcp_est x) in *.
     destruct (rnd_err (r * x)) as (d1 & h1 & Hd1 & Hh1 & _ & E1). rewrite E1.
@@ -166,22 +62,11 @@ Section Estimates.
   Qed.
 
   (* ------------------------------------------------------------------- rsqrt *)
-  Lemma sqrt_bpow_even k : sqrt (bpow radix2 (k + k)) = bpow radix2 k.
-  Proof. rewrite bpow_plus. apply sqrt_square. apply bpow_ge_0. Qed.
-
-  Lemma sqrt_range x : FLT_MIN <= x < bpow radix2 126 ->
-    bpow radix2 (-63) <= sqrt x <= bpow radix2 63.
-  Proof.
-    intros [Hlo Hhi]. split.
-    - rewrite <- (sqrt_bpow_even (-63)). apply sqrt_le_1_alt. exact Hlo.
-    - rewrite <- (sqrt_bpow_even 63). apply sqrt_le_1_alt. apply Rlt_le. exact Hhi.
-  Qed.
-
   Lemma rsqrt_simd_accuracy x :
     format32 x -> FLT_MIN <= x < bpow radix2 126 ->
     Rabs (rsqrt_simd rsqrt_est x * sqrt x - 1) <= bpow radix2 (-20).
   Proof.
-    clear H_rcp H_rcp_big rcp_est.
+    clear H_rcp rcp_est.
     intros Fx Hx. pose proof (H_rsqrt x Fx Hx) as He.
     pose proof (sqrt_range x Hx) as Hs.
     assert (Hxpos : 0 <= x) by (pose proof FLT_MIN_pos; lra).
@@ -231,125 +116,7 @@ Section Estimates.
     - unfold e. rewrite <- Hss. field. lra.
   Qed.
 
-  (* -------------------------------------------------- rcp_safe (SIMD formula) *)
-  Lemma rnd_sign y : (0 <= y -> 0 <= rnd y) /\ (y <= 0 -> rnd y <= 0).
-  Proof. split; intro H; [apply rnd_ge | apply rnd_le]; try exact fmt_0; exact H. Qed.
-
-  Lemma rcp_simd_finite_sign a :
-    format32 a -> FLT_MIN <= Rabs a ->
-    finite32 (rcp_simd rcp_est a) /\ 0 <= rcp_simd rcp_est a * a.
-  Proof.
-    clear H_rsqrt rsqrt_est.
-    intros Fa Ha. unfold rcp_simd, fmul, fsub. set (r := rcp_est a).
-    pose proof FLT_MIN_pos as Pm.
-    assert (Hu : 0 <= r * a <= Ubound).
-    { unfold Ubound. destruct (Rlt_or_le (Rabs a) (bpow radix2 126)) as [L | G].
-      - pose proof (H_rcp a Fa (conj Ha L)) as H. fold r in H.
-        apply Rabs_le_inv in H. lra.
-      - exact (H_rcp_big a Fa G). }
-    set (u := r * a) in *.
-    assert (Ht1 : 0 <= rnd u <= Ubound).
-    { split; [apply rnd_ge; [exact fmt_0 | lra] | apply rnd_le; [exact fmt_U | lra]]. }
-    set (t1 := rnd u) in *.
-    assert (Ht2 : 0 <= rnd (2 - t1) <= 2).
-    { unfold Ubound in Ht1. split; [apply rnd_ge; [exact fmt_0 | lra] | apply rnd_le; [exact fmt_2 | lra]]. }
-    set (t2 := rnd (2 - t1)) in *.
-    assert (Ha0 : a <> 0).
-    { intro E. rewrite E, Rabs_R0 in Ha. lra. }
-    assert (Hr : Rabs r <= Ubound * bpow radix2 126).
-    { assert (E : Rabs r = u * / Rabs a).
-      { unfold u. rewrite <- (Rabs_pos_eq (r * a)) by (unfold u in Hu; lra).
-        rewrite Rabs_mult. field. apply Rabs_no_R0. exact Ha0. }
-      rewrite E. apply Rmult_le_compat; [lra | | lra |].
-      - apply Rlt_le, Rinv_0_lt_compat. lra.
-      - replace (bpow radix2 126) with (/ FLT_MIN).
-        + apply Rinv_le_contravar; assumption.
-        + unfold FLT_MIN. rewrite <- bpow_opp. reflexivity. }
-    split.
-    - split; [apply rnd_format |].
-      apply rnd_abs_le; [exact fmt_FLT_MAX |].
-      rewrite Rabs_mult, (Rabs_pos_eq t2) by lra.
-      apply Rle_trans with (Ubound * bpow radix2 126 * 2).
-      + apply Rmult_le_compat; [apply Rabs_pos | lra | exact Hr | lra].
-      + unfold FLT_MAX. change 127%Z with (126 + 1)%Z. rewrite bpow_plus. simpl (bpow radix2 1).
-        pose proof (bpow_le radix2 (-23) (-1) ltac:(lia)) as H. simpl (bpow radix2 (-1)) in H.
-        pose proof (bpow_gt_0 radix2 126). unfold Ubound. nra.
-    - assert (Hp : 0 <= (r * t2) * a).
-      { replace (r * t2 * a) with (u * t2) by (unfold u; ring). apply Rmult_le_pos; lra. }
-      destruct (rnd_sign (r * t2)) as [S1 S2].
-      destruct (Rdichotomy _ _ Ha0) as [N | P].
-      + assert (r * t2 <= 0) by nra. specialize (S2 H). nra.
-      + assert (0 <= r * t2) by nra. specialize (S1 H). nra.
-  Qed.
 End Estimates.
-
-(* ------------------------------------------------------- rcp_safe argument *)
-Lemma rcp_safe_arg_spec x :
-  FLT_MIN <= Rabs (rcp_safe_arg x) /\
-  (0 <= x -> 0 < rcp_safe_arg x) /\ (x < 0 -> rcp_safe_arg x < 0) /\
-  (finite32 x -> finite32 (rcp_safe_arg x)).
-Proof.
-  pose proof FLT_MIN_pos as Pm. pose proof FLT_MIN_le_MAX as Pmm.
-  unfold rcp_safe_arg.
-  destruct (Rlt_bool_spec (Rabs x) FLT_MIN) as [L | G].
-  - destruct (Rle_bool_spec 0 x) as [P | N].
-    + rewrite (Rabs_pos_eq FLT_MIN) by lra. repeat split; try lra.
-      * exact fmt_FLT_MIN.
-      * rewrite (Rabs_pos_eq FLT_MIN) by lra. exact Pmm.
-    + rewrite Rabs_Ropp, (Rabs_pos_eq FLT_MIN) by lra. repeat split; try lra.
-      * apply generic_format_opp. exact fmt_FLT_MIN.
-      * rewrite Rabs_Ropp, (Rabs_pos_eq FLT_MIN) by lra. exact Pmm.
-  - split; [exact G |]. split; [| split; [intro N; exact N | intro Fx; exact Fx]].
-    intro P. destruct (Req_dec x 0) as [E | E]; [rewrite E, Rabs_R0 in G; lra | lra].
-Qed.
-
-Lemma rcp_nosimd_finite_sign a :
-  FLT_MIN <= Rabs a -> finite32 (rcp_nosimd a) /\ 0 <= rcp_nosimd a * a.
-Proof.
-  intro Ha. pose proof FLT_MIN_pos as Pm. unfold rcp_nosimd, fdiv.
-  assert (Ha0 : a <> 0).
-  { intro E. rewrite E, Rabs_R0 in Ha. lra. }
-  split.
-  - split; [apply rnd_format |].
-    apply Rle_trans with (bpow radix2 126); [| apply bpow_le_MAX; lia].
-    apply rnd_abs_le; [apply fmt_bpow; lia |].
-    unfold Rdiv. rewrite Rmult_1_l, Rabs_inv by exact Ha0.
-    replace (bpow radix2 126) with (/ FLT_MIN).
-    + apply Rinv_le_contravar; assumption.
-    + unfold FLT_MIN. rewrite <- bpow_opp. reflexivity.
-  - destruct (Rdichotomy _ _ Ha0) as [N | P].
-    + assert (H : 1 / a <= 0).
-      { unfold Rdiv. rewrite Rmult_1_l. apply Rlt_le, Rinv_lt_0_compat. exact N. }
-      assert (rnd (1 / a) <= 0) by (apply rnd_le; [exact fmt_0 | exact H]). nra.
-    + assert (H : 0 <= 1 / a).
-      { unfold Rdiv. rewrite Rmult_1_l. apply Rlt_le, Rinv_0_lt_compat. exact P. }
-      assert (0 <= rnd (1 / a)) by (apply rnd_ge; [exact fmt_0 | exact H]). nra.
-Qed.
-
-(* generic wrapper: any rcp that is finite and sign-correct on normal-or-larger arguments *)
-Lemma rcp_safe_finite_sign_gen (rcp : R -> R) :
-  (forall a, format32 a -> FLT_MIN <= Rabs a -> finite32 (rcp a) /\ 0 <= rcp a * a) ->
-  forall x, finite32 x ->
-  FLT_MIN <= Rabs (rcp_safe_arg x) /\
-  (0 <= x -> 0 < rcp_safe_arg x) /\ (x < 0 -> rcp_safe_arg x < 0) /\
-  finite32 (rcp_safe rcp x) /\ 0 <= rcp_safe rcp x * x.
-Proof.
-  intros Hrcp x Fx. destruct (rcp_safe_arg_spec x) as (A1 & A2 & A3 & A4).
-  specialize (A4 Fx). destruct A4 as [A4 A5].
-  destruct (Hrcp _ A4 A1) as [R1 R2]. unfold rcp_safe.
-  repeat split; try assumption; try (apply R1).
-  destruct (Rlt_or_le x 0) as [N | P].
-  - specialize (A3 N). nra.
-  - specialize (A2 P). nra.
-Qed.
-
-Lemma rcp_safe_nosimd_finite_sign x : finite32 x ->
-  FLT_MIN <= Rabs (rcp_safe_arg x) /\
-  (0 <= x -> 0 < rcp_safe_arg x) /\ (x < 0 -> rcp_safe_arg x < 0) /\
-  finite32 (rcp_safe rcp_nosimd x) /\ 0 <= rcp_safe rcp_nosimd x * x.
-Proof.
-  apply rcp_safe_finite_sign_gen. intros a _ Ha. apply rcp_nosimd_finite_sign. exact Ha.
-Qed.
 
 (* ---------------------------------------------------------- rsqrt NO_SIMD *)
 Lemma rsqrt_nosimd_accuracy x :
@@ -377,222 +144,6 @@ Proof.
     apply Rmult_integral_contrapositive_currified; [lra | exact Hden].
 Qed.
 
-(* ------------------------------------------------ clamp / min / max over R *)
-Lemma Rltb_irrefl a : Rlt_bool a a = false.
-Proof. apply Rlt_bool_false. lra. Qed.
-
-Lemma gle_R a b : gle R Rlt_bool a b <-> a <= b.
-Proof.
-  unfold gle. destruct (Rlt_bool_spec b a) as [L | G]; split; intro H; try lra; try discriminate; reflexivity.
-Qed.
-
-Lemma clampR_range x lo hi : lo <= hi -> lo <= clampR x lo hi <= hi.
-Proof.
-  intro H. destruct (clamp_range_g R Rlt_bool Rltb_irrefl x lo hi) as [A B].
-  - apply gle_R. exact H.
-  - apply gle_R in A. apply gle_R in B. split; assumption.
-Qed.
-
-Lemma clampR_id x lo hi : lo <= x <= hi -> clampR x lo hi = x.
-Proof. intros [A B]. apply clamp_id_g; apply gle_R; assumption. Qed.
-
-Lemma clampR_minmax x lo hi : clampR x lo hi = Rmax (Rmin x hi) lo.
-Proof.
-  unfold clampR, clamp, gmax, gmin, Rmax, Rmin.
-  destruct (Rlt_bool_spec hi x) as [L | G]; destruct (Rle_dec x hi) as [A | A]; try lra.
-  - destruct (Rlt_bool_spec hi lo); destruct (Rle_dec hi lo); lra.
-  - destruct (Rlt_bool_spec x lo); destruct (Rle_dec x lo); lra.
-Qed.
-
-Lemma clampR_mono x y lo hi : x <= y -> clampR x lo hi <= clampR y lo hi.
-Proof.
-  intro H. rewrite !clampR_minmax.
-  apply Rle_max_compat_r. apply Rle_min_compat_r. exact H.
-Qed.
-
-Lemma maxR_Rmax a b : maxR a b = Rmax a b.
-Proof.
-  unfold maxR, gmax, Rmax. destruct (Rlt_bool_spec a b); destruct (Rle_dec a b); lra.
-Qed.
-
-(* ------------------------------------------------------------------- cvt *)
-Lemma ZnearestA_mono x y : x <= y -> (ZnearestA x <= ZnearestA y)%Z.
-Proof. intro H. apply Zrnd_le; [typeclasses eauto | exact H]. Qed.
-
-Lemma ZnearestA_IZR n : ZnearestA (IZR n) = n.
-Proof. apply Zrnd_IZR. typeclasses eauto. Qed.
-
-Lemma cvt_arg_range f : 0 <= fmul 255 (clampR f 0 1) <= 255.
-Proof.
-  pose proof (clampR_range f 0 1 ltac:(lra)) as [A B]. unfold fmul. split.
-  - apply rnd_ge; [exact fmt_0 | nra].
-  - apply rnd_le; [exact fmt_255 | nra].
-Qed.
-
-Lemma cvt_range f : (0 <= cvt f <= 255)%Z.
-Proof.
-  destruct (cvt_arg_range f) as [A B]. unfold cvt. split.
-  - pose proof (ZnearestA_mono _ _ A) as H. rewrite (ZnearestA_IZR 0) in H. exact H.
-  - pose proof (ZnearestA_mono _ _ B) as H. rewrite (ZnearestA_IZR 255) in H. exact H.
-Qed.
-
-Lemma cvt_saturates f : (f <= 0 -> cvt f = 0%Z) /\ (1 <= f -> cvt f = 255%Z).
-Proof.
-  split; intro H; unfold cvt, fmul.
-  - assert (E : clampR f 0 1 = 0).
-    { rewrite clampR_minmax. rewrite Rmin_left by lra. apply Rmax_right. exact H. }
-    rewrite E, Rmult_0_r, rnd_0. apply (ZnearestA_IZR 0).
-  - assert (E : clampR f 0 1 = 1).
-    { rewrite clampR_minmax. rewrite Rmin_right by lra. apply Rmax_left. lra. }
-    rewrite E, Rmult_1_r, (rnd_id 255 fmt_255). apply (ZnearestA_IZR 255).
-Qed.
-
-Lemma cvt_monotone f g : f <= g -> (cvt f <= cvt g)%Z.
-Proof.
-  intro H. unfold cvt, fmul. apply ZnearestA_mono. apply rnd_mono.
-  apply Rmult_le_compat_l; [lra | apply clampR_mono; exact H].
-Qed.
-
-(* ----------------------------------------------------------- sRGB / srgba8 *)
-Section Libm.
-  Variable powf : R -> R -> R.
-  (* libm's pow is monotone in its first argument on the non-negative floats *)
-  Hypothesis pow_mono : forall g a b, 0 <= a <= b -> powf a g <= powf b g.
-
-  Lemma srgb_monotone f g : f <= g -> linear_to_srgb powf f <= linear_to_srgb powf g.
-  Proof.
-    intro H. unfold linear_to_srgb. apply pow_mono. rewrite !maxR_Rmax. split.
-    - apply Rmax_r.
-    - apply Rle_max_compat_r. exact H.
-  Qed.
-End Libm.
-
-Lemma srgba8_per_channel (powf : R -> R -> R) x y z w :
-  channel (linear_to_srgba8 powf x y z w) 0 = cvt (linear_to_srgb powf x) /\
-  channel (linear_to_srgba8 powf x y z w) 1 = cvt (linear_to_srgb powf y) /\
-  channel (linear_to_srgba8 powf x y z w) 2 = cvt (linear_to_srgb powf z) /\
-  channel (linear_to_srgba8 powf x y z w) 3 = cvt (maxR w 0).
-Proof. unfold linear_to_srgba8. apply pack_channels; apply cvt_range. Qed.
-
-(* ---------------------------------------------------------- distributions *)
-Section Dist.
-  Variable rn : R -> R.
-  Variable F : R -> Prop.
-  (* any rounding: monotone, lands in the format, identity on the format; the format
-     contains 0, 1 and 2^32 *)
-  Hypothesis rn_mono : forall x y, x <= y -> rn x <= rn y.
-  Hypothesis rn_F : forall x, F (rn x).
-  Hypothesis rn_id : forall x, F x -> rn x = x.
-  Hypothesis F0 : F 0.
-  Hypothesis F1 : F 1.
-  Hypothesis F32 : F (bpow radix2 32).
-
-  Lemma rn_between a b x : F a -> F b -> a <= x <= b -> a <= rn x <= b.
-  Proof.
-    intros Fa Fb [A B]. split.
-    - rewrite <- (rn_id a Fa). apply rn_mono. exact A.
-    - rewrite <- (rn_id b Fb). apply rn_mono. exact B.
-  Qed.
-
-  Lemma u32_as_float k : (0 <= k < 2 ^ 32)%Z -> 0 <= rn (IZR k) <= bpow radix2 32.
-  Proof.
-    intros [A B]. apply rn_between; try assumption. split.
-    - apply IZR_le. exact A.
-    - change (bpow radix2 32) with (IZR (2 ^ 32)). apply IZR_le. lia.
-  Qed.
-
-  Lemma pcg_float_range lower upper k :
-    F lower -> lower <= upper -> (0 <= k < 2 ^ 32)%Z ->
-    lower <= pcg_float rn lower upper k <= pcg_float_hi rn lower upper.
-  Proof.
-    intros Fl Hlu Hk. unfold pcg_float, pcg_float_hi.
-    set (diff := rn (upper - lower)).
-    assert (Hd : 0 <= diff).
-    { unfold diff. rewrite <- (rn_id 0 F0). apply rn_mono. lra. }
-    assert (Fd : F diff) by apply rn_F.
-    pose proof (u32_as_float k Hk) as Ha. set (a := rn (IZR k)) in *.
-    assert (Hb : 0 <= rn (bpow radix2 (-32) * a) <= 1).
-    { apply rn_between; try assumption.
-      assert (E : bpow radix2 (-32) * bpow radix2 32 = 1) by (rewrite <- bpow_plus; reflexivity).
-      pose proof (bpow_gt_0 radix2 (-32)). split; [nra |].
-      rewrite <- E. apply Rmult_le_compat_l; lra. }
-    set (b := rn (bpow radix2 (-32) * a)) in *.
-    assert (Hc : 0 <= rn (b * diff) <= diff).
-    { apply rn_between; try assumption. split; nra. }
-    set (c := rn (b * diff)) in *.
-    split.
-    - rewrite <- (rn_id lower Fl) at 1. apply rn_mono. lra.
-    - apply rn_mono. lra.
-  Qed.
-
-  Lemma uniform_real_range l u k :
-    F l -> l <= u -> (0 <= k <= 4294967295)%Z ->
-    l <= uniform_real rn l u k <= uniform_real_hi rn l u.
-  Proof.
-    intros Fl Hlu Hk. unfold uniform_real, uniform_real_hi.
-    set (m := rn (IZR 4294967295)).
-    assert (Hm : 1 <= m).
-    { unfold m. rewrite <- (rn_id 1 F1). apply rn_mono. apply IZR_le. lia. }
-    assert (Hd : 0 <= rn (u - l)).
-    { rewrite <- (rn_id 0 F0). apply rn_mono. lra. }
-    set (d := rn (u - l)) in *.
-    assert (Hs : 0 <= rn (d / m)).
-    { rewrite <- (rn_id 0 F0). apply rn_mono. apply Rmult_le_pos; [exact Hd |].
-      apply Rlt_le, Rinv_0_lt_compat. lra. }
-    set (sc := rn (d / m)) in *.
-    assert (Hk1 : 0 <= rn (IZR k) <= m).
-    { split.
-      - rewrite <- (rn_id 0 F0). apply rn_mono. apply IZR_le. lia.
-      - unfold m. apply rn_mono. apply IZR_le. lia. }
-    set (kf := rn (IZR k)) in *.
-    assert (Hp : 0 <= rn (kf * sc) <= rn (m * sc)).
-    { split.
-      - rewrite <- (rn_id 0 F0). apply rn_mono. nra.
-      - apply rn_mono. nra. }
-    split.
-    - rewrite <- (rn_id l Fl) at 1. apply rn_mono. lra.
-    - apply rn_mono. lra.
-  Qed.
-End Dist.
-
-(* the binary32 instance (round to nearest even); the same proof applies to every
-   Valid_rnd rounding of every FLT format containing 2^32, e.g. binary64 *)
-Ltac dist_hyps :=
-  first [exact rnd_mono | exact rnd_format | exact rnd_id | exact fmt_0 | exact fmt_1 | apply fmt_bpow; lia].
-
-Lemma pcg_float_range32 lower upper k :
-  format32 lower -> lower <= upper -> (0 <= k < 2 ^ 32)%Z ->
-  lower <= pcg_float rnd lower upper k <= pcg_float_hi rnd lower upper.
-Proof. apply (pcg_float_range rnd format32); dist_hyps. Qed.
-
-Lemma uniform_real_range32 l u k :
-  format32 l -> l <= u -> (0 <= k <= 4294967295)%Z ->
-  l <= uniform_real rnd l u k <= uniform_real_hi rnd l u.
-Proof. apply (uniform_real_range rnd format32); dist_hyps. Qed.
-
-(* ------------------------------------------------ definitional kernels *)
-Lemma sign_def x : (x < 0 -> sign x = -1) /\ (0 <= x -> sign x = 1).
-Proof.
-  unfold sign. split; intro H.
-  - rewrite Rlt_bool_true by exact H. reflexivity.
-  - rewrite Rlt_bool_false by exact H. reflexivity.
-Qed.
-
-Lemma lerp_def f a b : lerp f a b = rnd (rnd (rnd (1 - f) * a) + rnd (f * b)).
-Proof. reflexivity. Qed.
-
-Lemma lerp_endpoints a b : format32 a -> format32 b -> lerp 0 a b = a /\ lerp 1 a b = b.
-Proof.
-  intros Fa Fb. unfold lerp, fadd, fmul, fsub. split.
-  - rewrite Rminus_0_r, (rnd_id 1 fmt_1), Rmult_1_l, Rmult_0_l, rnd_0, (rnd_id a Fa), Rplus_0_r.
-    apply rnd_id. exact Fa.
-  - replace (1 - 1) with 0 by ring. rewrite rnd_0, Rmult_0_l, rnd_0, Rmult_1_l, (rnd_id b Fb), Rplus_0_l.
-    apply rnd_id. exact Fb.
-Qed.
-
-Lemma madd_def a b c : madd a b c = rnd (rnd (a * b) + c).
-Proof. reflexivity. Qed.
-
 Lemma deg2rad_def x : deg2rad x = rnd (x * deg2rad_c) /\ Rabs (deg2rad_c - PI / 180) <= bpow radix2 (-30).
 Proof. split; [reflexivity | unfold deg2rad_c; interval]. Qed.
 
@@ -619,32 +170,3 @@ Proof.
   interval.
 Qed.
 
-(* ------------------------------------------------------------ non-vacuity *)
-Lemma one_in_range : format32 1 /\ FLT_MIN <= Rabs 1 < bpow radix2 126 /\ FLT_MIN <= 1 < bpow radix2 126.
-Proof.
-  split; [exact fmt_1 |]. rewrite Rabs_R1. unfold FLT_MIN. change 1 with (bpow radix2 0).
-  split; split; first [apply bpow_le; lia | apply bpow_lt; lia].
-Qed.
-
-(* the estimate hypotheses are satisfiable (by the exact reciprocal / reciprocal square root) *)
-Lemma estimate_hypotheses_satisfiable :
-  (forall x, format32 x -> FLT_MIN <= Rabs x < bpow radix2 126 -> Rabs (/ x * x - 1) <= 3 / 8192) /\
-  (forall x, format32 x -> bpow radix2 126 <= Rabs x -> 0 <= / x * x <= 1 + 3 / 8192) /\
-  (forall x, format32 x -> FLT_MIN <= x < bpow radix2 126 -> Rabs (/ sqrt x * sqrt x - 1) <= 3 / 8192).
-Proof.
-  pose proof FLT_MIN_pos as Pm. repeat split.
-  - intros x _ [H _]. assert (x <> 0) by (intro E; rewrite E, Rabs_R0 in H; lra).
-    rewrite Rinv_l by assumption. replace (1 - 1) with 0 by ring. rewrite Rabs_R0. lra.
-  - assert (x <> 0). { intro E. rewrite E, Rabs_R0 in H0. pose proof (bpow_gt_0 radix2 126). lra. }
-    rewrite Rinv_l by assumption. lra.
-  - assert (x <> 0). { intro E. rewrite E, Rabs_R0 in H0. pose proof (bpow_gt_0 radix2 126). lra. }
-    rewrite Rinv_l by assumption. lra.
-  - intros x _ [H _]. assert (0 < sqrt x) by (apply sqrt_lt_R0; lra).
-    rewrite Rinv_l by lra. replace (1 - 1) with 0 by ring. rewrite Rabs_R0. lra.
-Qed.
-
-Lemma denormal_is_finite : finite32 (bpow radix2 (-149)) /\ Rabs (bpow radix2 (-149)) < FLT_MIN.
-Proof.
-  split; [split; [apply fmt_bpow; lia | rewrite Rabs_pos_eq by apply bpow_ge_0; apply bpow_le_MAX; lia] |].
-  unfold FLT_MIN. rewrite Rabs_pos_eq by apply bpow_ge_0. apply bpow_lt. lia.
-Qed.
